@@ -113,7 +113,7 @@ impl Driver for HubOp {
         json!({"op": op, "amount": amount.to_string(), "supply_b": supply_b.to_string(), "supply_s": supply_s.to_string(), "req_b": qb.to_string(), "req_s": qs.to_string(),
                "backing_b": bb.to_string(), "backing_s": bs.to_string(), "delegations": ds, "balance": "0", "prev_balance": "0", "fee": fee.to_string(), "threshold": thr.to_string(),
                "epoch_period": if rng.next() % 2 == 0 { "30" } else { "100000" }, "now": "5000",
-               "unregistered": if op.starts_with("update_global") && n > 1 && rng.next() % 3 == 0 { json!(rng.next() % n) } else { Value::Null }})
+               "unregistered": if (op.starts_with("update_global") || op.starts_with("unbond")) && n > 1 && rng.next() % 3 == 0 { json!(rng.next() % n) } else { Value::Null }})
     }
     fn run(&self, input: &Value) -> Outcome {
         let mut deps = setup(input);
@@ -133,6 +133,11 @@ impl Driver for HubOp {
         let res = run_op(&mut deps, op, amount, now);
         let mut c = BTreeMap::new();
         let mut obs = json!({"err": res.as_ref().err().map(|e| e.to_string())});
+        // C09: with both pools backed, the books covered by the delegations and a positive amount within the supply, an unbond is accepted --
+        // also while the registry no longer lists a validator the hub still has stake on
+        if (op == "unbond_bsei" || op == "unbond_stsei") && bb0 > 0 && bs0 > 0 && delegated >= bb0 + bs0 && deps.querier.delegations.iter().all(|d| d.1 > 0) {
+            c.insert("unbond#C09.accepted_when_backed".to_string(), res.is_ok());
+        }
         if let Ok(resp) = res {
             let st1: State = STATE.load(&deps.storage).unwrap();
             let cb1: CurrentBatch = CURRENT_BATCH.load(&deps.storage).unwrap();
